@@ -52,6 +52,10 @@ structure RefTable where
 def renderBody (t : RefTable) : List Str :=
   renderHeader t.hw t.names :: t.rows.map (fun r => renderRow t.cols (r.map renderCell))
 
+/-- A table written with NOLABEL / NOHEADER: the data lines only. -/
+def renderRecords (t : RefTable) : List Str :=
+  t.rows.map (fun r => renderRow t.cols (r.map renderCell))
+
 /-! ### when a table "fits" its format (decidable) -/
 
 def isToken (t : Str) : Bool := !t.isEmpty && t.all (fun c => !isWs c)
@@ -78,6 +82,10 @@ def cellOk : Cell → Bool
 def RefTable.fits (t : RefTable) : Bool :=
   headerOk t.hw t.names && !hasDup t.names && t.names.length == t.cols.length
     && t.rows.all (fun r => r.all cellOk && fitsRow t.cols (r.map renderCell))
+
+/-- Fitting of a header-less table: at least one column; every row has one fitting cell per column. -/
+def RefTable.fitsRecords (t : RefTable) : Bool :=
+  !t.cols.isEmpty && t.rows.all (fun r => r.all cellOk && fitsRow t.cols (r.map renderCell))
 
 /-! ### title line -/
 
